@@ -4,7 +4,7 @@ from . import common as C
 from . import e2
 
 
-def run_e2(chk, src, name, timeout=60, harness_args=(), support=C.FEAT_MIN_SRCS, sig_prefix=None, max_group=64, extra_flags=(), case_filter=None, group_timeout=5):
+def run_e2(chk, src, name, timeout=60, harness_args=(), support=C.FEAT_MIN_SRCS, sig_prefix=None, max_group=64, extra_flags=(), case_filter=None, group_timeout=5, flips=True, max_flips_per_case=6, max_flips=4000):
     bdir = C.mkdir(os.path.join(C.BUILD, chk.pid, name))
     work = C.mkdir(os.path.join(bdir, 'smt'))
     for f in os.listdir(work):
@@ -15,13 +15,61 @@ def run_e2(chk, src, name, timeout=60, harness_args=(), support=C.FEAT_MIN_SRCS,
     rw = e2.run_harness(binary, dump, args=harness_args)
     d = e2.Dump(dump)
     cases = [c for c in d.cases if (case_filter is None or case_filter(c))]
+    dumps = [d] * len(cases)
+    # concolic branch exploration: every recorded "variable != constant" path condition is flipped by re-running the
+    # harness for that case with the variable's shadow set to the constant (the other side of an exact-equality branch)
+    if flips:
+        todo = []
+        for c in cases:
+            seen = set()
+            for (op, a, b) in c['pcs']:
+                if op != 'ne':
+                    continue
+                na, nb = d.nodes[a], d.nodes[b]
+                if na[0] == 'V' and nb[0] == 'C':
+                    key = (na[1], float(nb[1]))
+                elif nb[0] == 'V' and na[0] == 'C':
+                    key = (nb[1], float(na[1]))
+                else:
+                    continue
+                if key not in seen and len(seen) < max_flips_per_case:
+                    seen.add(key); todo.append((c['name'], key))
+        todo = todo[:max_flips]
+        fdir = C.mkdir(os.path.join(bdir, 'flips'))
+        for f in os.listdir(fdir):
+            os.remove(os.path.join(fdir, f))
+
+        def flip(ix):
+            cname, (var, val) = todo[ix]
+            ov = os.path.join(fdir, 'ov%d.txt' % ix); dp = os.path.join(fdir, 'flip%d.dump' % ix)
+            with open(ov, 'w') as f:
+                f.write('%s %.17g\n' % (var, val))
+            env = dict(os.environ, VH_ONLY_CASE=cname, MALLOC_PERTURB_='171')
+            rc, so, se, w = C.run([binary, dp, ov] + list(harness_args), timeout=600, env=env)
+            if rc != 0:
+                return ('ERR', 'flip run failed for %s: %s' % (cname, (se or so)[-300:]))
+            fd = e2.Dump(dp)
+            out = []
+            for fc in fd.cases:
+                if fc['name'] == cname:
+                    fc['replay_case'] = cname
+                    fc['name'] = '%s @flip(%s=%g)' % (cname, var, val)
+                    out.append((fd, fc))
+            os.remove(dp)
+            return out
+        for r in C.pmap(flip, range(len(todo))):
+            if r and r[0] == 'ERR':
+                chk.error(r[1]); continue
+            for fd, fc in (r or []):
+                cases.append(fc); dumps.append(fd)
+        chk.extra['e2_branch_flips'] = chk.extra.get('e2_branch_flips', 0) + len(todo)
     rnd = random.Random(chk.seed)
     seeds = [rnd.randint(0, 1 << 30) for _ in cases]
 
     def one(ix):
         c = cases[ix]
         try:
-            return e2.decide_case(d, c, work, timeout=timeout, rnd=random.Random(seeds[ix]), max_group=max_group, group_timeout=group_timeout)
+            return e2.decide_case(dumps[ix], c, work, timeout=timeout, rnd=random.Random(seeds[ix]), max_group=max_group, group_timeout=group_timeout)
         except Exception as ex:  # noqa
             import traceback
             return ('ERR', traceback.format_exc())
@@ -81,7 +129,7 @@ def run_e2(chk, src, name, timeout=60, harness_args=(), support=C.FEAT_MIN_SRCS,
             with open(af, 'w') as f:
                 for k, v in r1.get('assign', {}).items():
                     f.write('%s %.17g\n' % (k, v))
-            rc, so, se, w = C.run([rbin, '--replay', c['name'], af] + list(harness_args), timeout=600)
+            rc, so, se, w = C.run([rbin, '--replay', c.get('replay_case', c['name']), af] + list(harness_args), timeout=600)
             fails = [l for l in so.split('\n') if l.startswith('REPLAY-FAIL')]
             hit = [l for l in fails if ('label=' + r1['label']) in l or ('fact=' + r1['label']) in l]
             if rc == 1 and (hit or fails):
